@@ -280,7 +280,13 @@ impl Engine for C11 {
         let effective = limit_value.map(|l| l.min(WINDOW_MAX)).unwrap_or(DEFAULT);
         let mut dec = FrameDecoder::new();
         for e in &plan.history {
-            run_episode(&mut dec, *e, never_set).map_err(HarnessError)?;
+            // the history frames are legal and within the limit in force (or, for `Rejected`, above it): a decoder that
+            // mishandles them breaks the property already there
+            if let Err(msg) = run_episode(&mut dec, *e, never_set) {
+                stats.inc("probe.history_episode_misbehaved");
+                let v = violation(format!("C11/history_frame_mishandled:{e:?}"), format!("{msg} (history {:?}, limit {:?})", plan.history, plan.limit));
+                return Ok(RunOutcome { violation: Some(v), digest: 0xBAD, nontrivial: true, steps: 1, bytes: 0 });
+            }
         }
         if let Some(l) = limit_value {
             if plan.front != Front11::StreamNewWithMax {
